@@ -45,7 +45,8 @@ def main():
                 print(p.stdout[-1500:])
     finally:
         sh(["git", "-C", "/repo", "checkout", "--", "."])
-    # rebuild the harness on the clean tree so that the next check does not start from the mutant's objects
+    # rebuild the harness on the clean tree so that nothing started by hand afterwards runs the mutant's binary
+    sh(["cargo", "build", "--release", "--offline"], cwd=os.path.join(ROOT, "harness"))
     d = os.path.join(ROOT, "seeded", sid)
     os.makedirs(d, exist_ok=True)
     shutil.copyfile(patch, os.path.join(d, "patch.diff"))
